@@ -129,40 +129,39 @@ Proof.
 Qed.
 Print Assumptions C12_python_format_type.
 
-(* Python, the WHOLE file (header + body): for every program and configuration outside the two classes
-   (C12-python-alias-typevar, C12-python-default-translation), every helper name the generated file
-   uses - in the body: type names of the fixed vocabulary at any depth, BaseModel / Generic / ConfigDict /
-   Field / Annotated / BeforeValidator / PlainSerializer / Enum / Literal / Union of the templates, the
-   generic parameters of class headers, alias heads and types, the (de)serialiser functions an Annotated
-   field names; in the header (written AFTER the body from the state it left): TypeVar of the
+(* Python, the WHOLE file (header + body): for every program and configuration, every helper name the
+   generated file uses - in the body: type names of the fixed vocabulary at any depth, BaseModel / Generic /
+   ConfigDict / Field / Annotated / BeforeValidator / PlainSerializer / Enum / Literal / Union of the templates,
+   the generic parameters of class headers and of types (alias targets included), the (de)serialiser functions an
+   Annotated field names; in the header (written AFTER the body from the state it left): TypeVar of the
    `T = TypeVar("T")` lines, datetime inside the datetime helper functions - is imported, declared as a
    TypeVar or defined as a helper function by that header.  dom: no user type name / generic parameter is
-   a word of the helper vocabulary, no type_mappings value is the text `datetime`. *)
+   a word of the helper vocabulary, no type_mappings value is the text `datetime`.
+   No carve-out: the classes C12-python-alias-typevar and C12-python-default-translation are fixed in /repo
+   (write_type_alias declares the alias's parameters as TypeVars; write_field registers the unwrapped type). *)
 Theorem C12_python :
   forall (uc : unicode) (cfg : py_config) (pd : parsed) (uses defs : list str),
     c12_py_observe uc cfg pd = Ok (uses, defs) -> c12_py_dom cfg (items_of pd) = true ->
-    c12_py_known cfg pd = None ->
     c12_good uses defs = true.
 Proof. exact Proofs.C12.c12_python. Qed.
 Print Assumptions C12_python.
 
 (* the hypotheses are satisfiable on an input that exercises every half: generic struct + generic alias
-   sharing T, serde(default) OffsetDateTime next to a plain one, serde(default) Vec<u8> mapped to bytes
-   whose plain text is registered by the formatter two levels deep *)
+   sharing T, a generic alias whose parameter U nothing else declares, serde(default) OffsetDateTime next to a
+   plain one, serde(default) Vec<u8> mapped to bytes next to one the formatter registers two levels deep *)
 Theorem C12_python_nonvacuous :
-  c12_py_known Proofs.C12.c12_py_cfg1 Proofs.C12.c12_py_full_pd = None /\
   c12_py_dom Proofs.C12.c12_py_cfg1 (items_of Proofs.C12.c12_py_full_pd) = true /\
   exists uses defs, c12_py_observe uc_exec Proofs.C12.c12_py_cfg1 Proofs.C12.c12_py_full_pd = Ok (uses, defs) /\
-                    In (lit "T") uses /\ In (lit "TypeVar") uses /\ In (lit "parse_rfc3339") uses /\
+                    In (lit "T") uses /\ In (lit "U") uses /\ In (lit "TypeVar") uses /\ In (lit "parse_rfc3339") uses /\
                     In (lit "deserialize_binary_data") uses /\ In (lit "datetime") uses /\
                     c12_good uses defs = true.
 Proof. exact Proofs.C12.c12_python_file_nonvacuous. Qed.
 Print Assumptions C12_python_nonvacuous.
 
-(* Python, the body alone, with NO class hypothesis (kept from before C12_python; partial): every name the
-   declarations of the body use is defined or imported by the header, OR is a generic parameter name of
-   the program, OR one of the four (de)serialiser function names.  The two "OR"s are exactly what the two
-   classes decide; C12_python above closes them and adds the header's own uses. *)
+(* Python, the body alone (kept from before C12_python; partial): every name the declarations of the body use
+   is defined or imported by the header, OR is a generic parameter name of the program, OR one of the four
+   (de)serialiser function names.  The two "OR"s are what the two repaired classes decided on the unchanged
+   tree; C12_python above closes them and adds the header's own uses. *)
 Theorem C12_python_body_partial :
   forall (uc : unicode) (cfg : py_config) (pd : parsed) (ds : list py_decl) (st : py_state),
     py_decls uc cfg pd = Ok (ds, st) -> c12_py_dom cfg (items_of pd) = true ->
@@ -172,21 +171,33 @@ Theorem C12_python_body_partial :
 Proof. exact Proofs.C12_Python.c12_py_file_partial. Qed.
 Print Assumptions C12_python_body_partial.
 
-Theorem C12_python_alias_typevar_refuted :
-  c12_py_known Proofs.C12.c12_py_cfg0 Proofs.C12.c12_py_alias_pd = Some "C12-python-alias-typevar"%string /\
+(* REGRESSION PINS of the two fixed findings (vm_compute): the former witnesses through the model.
+   `#[typeshare] pub type GA<T> = Vec<T>;` alone: the file declares `T = TypeVar("T")`, imports TypeVar, and the
+   alias is the plain assignment `GA = List[T]` (before the repair: `GA[T] = List[T]`, T undefined). *)
+Theorem C12_python_alias_typevar_fixed :
+  c12_py_known Proofs.C12.c12_py_cfg0 Proofs.C12.c12_py_alias_pd = None /\
   c12_py_dom Proofs.C12.c12_py_cfg0 (items_of Proofs.C12.c12_py_alias_pd) = true /\
-  exists uses defs, c12_py_observe uc_exec Proofs.C12.c12_py_cfg0 Proofs.C12.c12_py_alias_pd = Ok (uses, defs) /\
-                    In (lit "T") uses /\ ~ In (lit "T") defs /\ c12_good uses defs = false.
-Proof. exact Proofs.C12.c12_python_alias_typevar_refuted. Qed.
-Print Assumptions C12_python_alias_typevar_refuted.
+  py_generate uc_exec Proofs.C12.c12_py_cfg0 Proofs.C12.c12_py_alias_pd = Ok Proofs.C12.c12_py_alias_text /\
+  c12_py_observe uc_exec Proofs.C12.c12_py_cfg0 Proofs.C12.c12_py_alias_pd =
+    Ok ([lit "TypeVar"; lit "List"; lit "T"], [lit "T"; lit "List"; lit "TypeVar"]) /\
+  c12_good [lit "TypeVar"; lit "List"; lit "T"] [lit "T"; lit "List"; lit "TypeVar"] = true.
+Proof. exact Proofs.C12.c12_python_alias_typevar_fixed. Qed.
+Print Assumptions C12_python_alias_typevar_fixed.
 
-Theorem C12_python_default_translation_refuted :
-  c12_py_known Proofs.C12.c12_py_cfg0 Proofs.C12.c12_py_default_pd = Some "C12-python-default-translation"%string /\
+(* `struct S { #[serde(default)] at: OffsetDateTime }` alone: the field is annotated with parse_rfc3339 /
+   serialize_datetime_data and the header now defines both (before the repair the set held `Optional[datetime]`,
+   for which no functions are written) *)
+Theorem C12_python_default_translation_fixed :
+  c12_py_known Proofs.C12.c12_py_cfg0 Proofs.C12.c12_py_default_pd = None /\
   c12_py_dom Proofs.C12.c12_py_cfg0 (items_of Proofs.C12.c12_py_default_pd) = true /\
-  exists uses defs, c12_py_observe uc_exec Proofs.C12.c12_py_cfg0 Proofs.C12.c12_py_default_pd = Ok (uses, defs) /\
-                    In (lit "parse_rfc3339") uses /\ ~ In (lit "parse_rfc3339") defs /\ c12_good uses defs = false.
-Proof. exact Proofs.C12.c12_python_default_translation_refuted. Qed.
-Print Assumptions C12_python_default_translation_refuted.
+  py_generate uc_exec Proofs.C12.c12_py_cfg0 Proofs.C12.c12_py_default_pd = Ok Proofs.C12.c12_py_default_text /\
+  contains_sub (lit "def parse_rfc3339(date_str: str) -> datetime:") Proofs.C12.c12_py_default_text = true /\
+  contains_sub (lit "def serialize_datetime_data(utc_time: datetime) -> str:") Proofs.C12.c12_py_default_text = true /\
+  c12_py_observe uc_exec Proofs.C12.c12_py_cfg0 Proofs.C12.c12_py_default_pd =
+    Ok (Proofs.C12.c12_py_default_uses, Proofs.C12.c12_py_default_defs) /\
+  c12_good Proofs.C12.c12_py_default_uses Proofs.C12.c12_py_default_defs = true.
+Proof. exact Proofs.C12.c12_python_default_translation_fixed. Qed.
+Print Assumptions C12_python_default_translation_fixed.
 
 (* ---------------------------------------------------------------------------------------------
    MULTI-FILE (folder output, `-d`) MODE.  The language value lives as long as the run: generate_crates
@@ -232,17 +243,17 @@ Print Assumptions C12_multi_python_state_ok_meaning.
 
 (* Python, ONE FILE from ANY state that satisfies the invariant - whatever else the earlier crates left in it
    (imports, TypeVars, helper translations: they only make the header define MORE): the judgement of C12_python,
-   under the same hypotheses on THIS crate (dom, outside the two classes); and the state reached satisfies the
-   invariant again (this half needs dom only). *)
+   under the same hypothesis on THIS crate (dom; no class is left, see C12_python); and the state reached satisfies
+   the invariant again. *)
 Theorem C12_multi_python_file :
   forall (uc : unicode) (cfg : py_config) (st0 : py_state) (pd : parsed),
     Proofs.C12Multi.c12_py_state_ok st0 = true -> c12_py_dom cfg (items_of pd) = true ->
     (forall uses defs, Proofs.C12Multi.c12_py_observe_multi uc cfg st0 pd = Ok (uses, defs) ->
-       c12_py_known cfg pd = None -> c12_good uses defs = true) /\
+       c12_good uses defs = true) /\
     (forall ds st, Proofs.C12Multi.py_multi_decls uc cfg st0 pd = Ok (ds, st) -> Proofs.C12Multi.c12_py_state_ok st = true).
 Proof.
   intros uc cfg st0 pd Hinv Hdom. split.
-  - intros uses defs H Hk. exact (Proofs.C12Multi.c12_python_multi_file uc cfg st0 pd uses defs Hinv H Hdom Hk).
+  - intros uses defs H. exact (Proofs.C12Multi.c12_python_multi_file uc cfg st0 pd uses defs Hinv H Hdom).
   - intros ds st H. exact (Proofs.C12Multi.c12_py_state_ok_step uc cfg st0 pd ds st Hinv H Hdom).
 Qed.
 Print Assumptions C12_multi_python_file.
@@ -251,10 +262,9 @@ Print Assumptions C12_multi_python_file.
    satisfying the invariant (py_empty_state does), every file generate_crates produces - file number i, provided the
    crates up to and including number i are in the domain - is what py_generate_multi returns on crate number i's
    data from a state st_i that satisfies the invariant; its text is the layout above over the declarations ds;
-   and its observation satisfies the per-file judgement of C12_python whenever crate number i is outside the two
-   classes: every helper name the file uses - in the body or in the header written from the accumulated state -
-   is imported, declared as a TypeVar or defined as a helper function by that file's header.  No hypothesis on the
-   classes of the EARLIER crates.  When the run completes on a plan inside the domain, the final state satisfies
+   and its observation satisfies the per-file judgement of C12_python: every helper name the file uses - in the
+   body or in the header written from the accumulated state - is imported, declared as a TypeVar or defined as a
+   helper function by that file's header.  When the run completes on a plan inside the domain, the final state satisfies
    the invariant.  (Carry-over makes a later file import or define more than it uses - see the pins below -, never
    less.) *)
 Theorem C12_multi_python :
@@ -272,7 +282,7 @@ Theorem C12_multi_python :
          text = py_begin_file cfg ++ py_write_all_imports st_i' ++ py_write_custom_translations st_i' ++
                 List.concat (map py_render_decl ds) /\
          Proofs.C12Multi.c12_py_observe_multi uc cfg st_i (op_data p) = Ok (uses, defs) /\
-         (c12_py_known cfg (op_data p) = None -> c12_good uses defs = true)) /\
+         c12_good uses defs = true) /\
     (forall st', fin = Ok st' -> Forall (fun p => c12_py_dom cfg (items_of (op_data p)) = true) plan ->
        Proofs.C12Multi.c12_py_state_ok st' = true).
 Proof. exact Proofs.C12Multi.c12_multi_python. Qed.
@@ -287,7 +297,7 @@ Print Assumptions C12_multi_python_gen_meaning.
 (* NON-VACUITY (vm_compute), workspaces of Proofs/C12MultiWitness.v parsed by the multi-file front end:
      alpha/src/lib.rs:  #[typeshare] struct Page<T> { item: T, at: OffsetDateTime }
      beta/src/lib.rs:   #[typeshare] struct Plain { n: u32 }                          (ws_py_plain)
-   Both crates are in the domain and outside the classes; the run from py_empty_state completes; beta.py is
+   Both crates are in the domain; the run from py_empty_state completes; beta.py is
    y_beta_plain_py byte for byte: although Plain uses neither a type variable nor datetime, its header carries the
    imports, `T = TypeVar("T")` and the datetime helper functions crate alpha left in the printer, and imports what
    these use.  py_multi_observations = the observation of every file, the state threaded as generate_crates does. *)
@@ -296,7 +306,6 @@ Theorem C12_multi_python_nonvacuous_plain :
     Proofs.C12MultiWitness.y_plan Python Proofs.C12MultiWitness.ws_py_plain = Some plan /\
     map op_crate plan = [lit "alpha"; lit "beta"] /\
     forallb (fun p => c12_py_dom Proofs.C12MultiWitness.y_py_cfg (items_of (op_data p))) plan = true /\
-    forallb (fun p => Proofs.C12MultiWitness.y_none (c12_py_known Proofs.C12MultiWitness.y_py_cfg (op_data p))) plan = true /\
     generate_crates (Proofs.C12Multi.py_multi_gen uc_exec Proofs.C12MultiWitness.y_py_cfg) py_empty_state plan =
       ([(lit "alpha.py", Writer.Generated t_alpha); (lit "beta.py", Writer.Generated Proofs.C12MultiWitness.y_beta_plain_py)], Ok st_fin) /\
     py_type_variables st_fin = [lit "T"] /\ py_custom_types st_fin = [lit "datetime"] /\
@@ -315,7 +324,6 @@ Theorem C12_multi_python_nonvacuous_again :
     Proofs.C12MultiWitness.y_plan Python Proofs.C12MultiWitness.ws_py_again = Some plan /\
     map op_crate plan = [lit "alpha"; lit "beta"] /\
     forallb (fun p => c12_py_dom Proofs.C12MultiWitness.y_py_cfg (items_of (op_data p))) plan = true /\
-    forallb (fun p => Proofs.C12MultiWitness.y_none (c12_py_known Proofs.C12MultiWitness.y_py_cfg (op_data p))) plan = true /\
     generate_crates (Proofs.C12Multi.py_multi_gen uc_exec Proofs.C12MultiWitness.y_py_cfg) py_empty_state plan =
       ([(lit "alpha.py", Writer.Generated t_alpha); (lit "beta.py", Writer.Generated t_beta)], Ok st_fin) /\
     py_type_variables st_fin = [lit "T"; lit "U"] /\
@@ -348,7 +356,7 @@ Print Assumptions C12_multi_python_drain_regression.
 
 (* SHARPNESS (vm_compute) of the hypothesis of C12_multi_python on the crates BEFORE file i.  Workspace ws_py_taint:
      alpha/src/lib.rs:  #[typeshare] struct A { d: datetime }     (a user type called `datetime`: outside c12_py_dom)
-     beta/src/lib.rs:   #[typeshare] struct Plain { n: u32 }      (inside the domain, outside the classes)
+     beta/src/lib.rs:   #[typeshare] struct Plain { n: u32 }      (inside the domain)
    alpha's field prints as the text `datetime`, which registers the datetime helper functions without the datetime
    import; the state alpha leaves violates the invariant and beta.py carries the helper functions, using datetime
    without importing it: in multi-file mode a crate outside the domain spoils the files of LATER crates. *)
@@ -357,7 +365,6 @@ Theorem C12_multi_python_earlier_dom_needed :
     Proofs.C12MultiWitness.y_plan Python Proofs.C12MultiWitness.ws_py_taint = Some plan /\ plan = [p_alpha; p_beta] /\
     c12_py_dom Proofs.C12MultiWitness.y_py_cfg (items_of (op_data p_alpha)) = false /\
     c12_py_dom Proofs.C12MultiWitness.y_py_cfg (items_of (op_data p_beta)) = true /\
-    c12_py_known Proofs.C12MultiWitness.y_py_cfg (op_data p_beta) = None /\
     py_generate_multi uc_exec Proofs.C12MultiWitness.y_py_cfg py_empty_state (op_data p_alpha) = Ok (t_alpha, st1) /\
     Proofs.C12Multi.c12_py_state_ok st1 = false /\
     Proofs.C12Multi.c12_py_observe_multi uc_exec Proofs.C12MultiWitness.y_py_cfg st1 (op_data p_beta) = Ok (uses, defs) /\
